@@ -33,6 +33,7 @@ class TokenStream:
         lexer = shlex.shlex(self._source_io, posix=True)
         lexer.whitespace_split = True
         lexer.escape = ''
+        lexer.commenters = ''
         return lexer
 
     @property
